@@ -100,3 +100,33 @@ def regular_closed_rows(rng, k, d):
         else:
             rows.append([-1, -1, -1, -1])
     return rows
+
+
+def regular_norepeat_rows(rng, k, d):
+    """Closed d-regular graph with a non-trivial second eigenvalue: k-mers over d+1 letters without equal adjacent
+    letters; arcs append any of those letters except the last one."""
+    letters = sorted(rng.sample(range(4), d + 1))
+    n = 4 ** k
+    rows = []
+    for v in range(n):
+        s = [M.NT.index(ch) for ch in M.kmer(v, k)]
+        if all(x in letters for x in s) and all(s[i] != s[i + 1] for i in range(k - 1)):
+            lat = M.latters(v, k)
+            rows.append([lat[j] if (j in letters and j != s[-1]) else -1 for j in range(4)])
+        else:
+            rows.append([-1, -1, -1, -1])
+    return rows
+
+
+def regular_dangling_rows(rng, k, d):
+    """Closed d-regular graph over a d-letter alphabet plus dangling arcs: some live vertices also point to k-mers
+    containing a foreign letter, which have no out-arcs. Every live vertex still has exactly d *live* successors."""
+    rows = regular_norepeat_rows(rng, k, d) if rng.random() < 0.6 else regular_closed_rows(rng, k, d)
+    n = 4 ** k
+    live = [v for v in range(n) if any(w >= 0 for w in rows[v])]
+    for v in live:
+        lat = M.latters(v, k)
+        for j in range(4):
+            if rows[v][j] < 0 and rng.random() < 0.4:
+                rows[v][j] = lat[j]          # target contains a letter outside the alphabet: it is a dead vertex
+    return rows
